@@ -102,12 +102,14 @@ func (fs *Store) AddMessage(m storage.Message) (id string, err error) {
 	if err := mb.createDir(); err != nil {
 		return "", err
 	}
+	verifPoint("add.mkdir", mb.path)
 
 	// Write the message content.
 	file, err := os.Create(fm.rawPath())
 	if err != nil {
 		return "", err
 	}
+	verifPoint("add.raw.create", fm.rawPath())
 	w := bufio.NewWriter(file)
 	size, err := io.Copy(w, r)
 	if err != nil {
@@ -117,17 +119,20 @@ func (fs *Store) AddMessage(m storage.Message) (id string, err error) {
 		return "", err
 	}
 	_ = r.Close()
+	verifPoint("add.raw.copied", fm.rawPath())
 	if err := w.Flush(); err != nil {
 		// Try to remove the file.
 		_ = file.Close()
 		_ = os.Remove(fm.rawPath())
 		return "", err
 	}
+	verifPoint("add.raw.flushed", fm.rawPath())
 	if err := file.Close(); err != nil {
 		// Try to remove the file.
 		_ = os.Remove(fm.rawPath())
 		return "", err
 	}
+	verifPoint("add.raw.closed", fm.rawPath())
 
 	// Update the index.
 	fm.Fdate = m.Date()
@@ -221,6 +226,7 @@ func (fs *Store) VisitMailboxes(f func([]storage.Message) (cont bool)) error {
 	if err != nil {
 		return err
 	}
+	verifPoint("visit.l1.listed", fs.mailPath)
 
 	// Loop over level 1 directories.
 	for _, name1 := range names1 {
@@ -228,6 +234,7 @@ func (fs *Store) VisitMailboxes(f func([]storage.Message) (cont bool)) error {
 		if err != nil {
 			return err
 		}
+		verifPoint("visit.l2.listed", name1)
 
 		// Loop over level 2 directories.
 		for _, name2 := range names2 {
@@ -235,10 +242,12 @@ func (fs *Store) VisitMailboxes(f func([]storage.Message) (cont bool)) error {
 			if err != nil {
 				return err
 			}
+			verifPoint("visit.l3.listed", name2)
 
 			// Loop over mailboxes.
 			for _, name3 := range names3 {
 				mb := fs.mboxFromHash(name3)
+				verifPoint("visit.mbox", name3)
 				mb.RLock()
 				msgs, err := mb.getMessages()
 				mb.RUnlock()
